@@ -246,6 +246,10 @@ type FileInput struct {
 	Stem string `json:"stem,omitempty"`
 	// Links: the files in the search-path directories are symbolic links to files kept elsewhere
 	Links bool `json:"links,omitempty"`
+	// Sub: files in a subdirectory (named SubName) of the first search-path directory. A plain path
+	// entry must not look into it; an entry written dir/... searches dir and everything below it.
+	Sub     []string `json:"sub,omitempty"`
+	SubName string   `json:"sub_name,omitempty"`
 }
 
 var fileStems = []string{"", "a.b", "a-b", "a_", "A", "a.yang.b"}
@@ -320,6 +324,11 @@ func choose(dirs [][]string, request string) string {
 	return ""
 }
 
+// bestOf is the reference for one directory: name.yang, else the latest date, else nothing.
+func bestOf(di int, files []string, request string) string {
+	return choose(append(make([][]string, di), files), request)
+}
+
 type fileEnv struct {
 	root   string
 	dirs   []string
@@ -354,6 +363,10 @@ func (e *fileEnv) set(in FileInput) {
 		ents, _ := os.ReadDir(d)
 		for _, en := range ents {
 			p := filepath.Join(d, en.Name())
+			if en.IsDir() {
+				os.RemoveAll(p)
+				continue
+			}
 			if !want[en.Name()] || e.linked[p] != in.Links {
 				os.Remove(p)
 				delete(e.linked, p)
@@ -376,6 +389,17 @@ func (e *fileEnv) set(in FileInput) {
 			e.linked[p] = true
 		}
 	}
+	if in.SubName != "" {
+		sn := in.SubName
+		if strings.HasPrefix(sn, "a@") {
+			sn = in.actual(sn) // a directory named like a dated file of the module
+		}
+		sd := filepath.Join(e.dirs[1], sn)
+		os.MkdirAll(sd, 0o755)
+		for _, fn := range in.Sub {
+			os.WriteFile(filepath.Join(sd, in.actual(fn)), []byte(fileContent(3, in.actual(fn), in.Stem)), 0o644)
+		}
+	}
 }
 
 func (e *fileEnv) close() { os.RemoveAll(e.root) }
@@ -390,12 +414,29 @@ func checkFile(e *fileEnv, in FileInput) *fail {
 			panic(err)
 		}
 		want := choose(in.actualDirs(), in.actual(in.Request))
-		// the search path given directory by directory, and as the command builds it from a root:
-		// the directories below it that hold YANG files, in walking order
-		for route := 0; route < 2 && f == nil; route++ {
+		// what the subdirectory of the first path directory offers (only a dir/... entry may see it)
+		var subBest, d1Best string
+		if in.SubName != "" {
+			var sub []string
+			for _, fn := range in.Sub {
+				sub = append(sub, in.actual(fn))
+			}
+			subBest = bestOf(3, sub, in.actual(in.Request))
+			d1Best = bestOf(1, in.actualDirs()[1], in.actual(in.Request))
+		}
+		// the search path given directory by directory, as the command builds it from a root (the
+		// directories below it that hold YANG files, in walking order), and as dir/... entries
+		for route := 0; route < 3 && f == nil; route++ {
+			if route == 1 && in.SubName != "" {
+				continue // the walking order decides where the subdirectory stands: not predicted
+			}
 			ms := yang.NewModules()
 			if route == 0 {
 				ms.AddPath(e.dirs[1], e.dirs[2])
+			} else if route == 2 && in.SubName == "" {
+				ms.AddPath(filepath.Join(e.root, "..."))
+			} else if route == 2 {
+				ms.AddPath(filepath.Join(e.dirs[1], "..."), filepath.Join(e.dirs[2], "..."))
 			} else {
 				ps, perr := yang.PathsWithModules(e.root)
 				if perr != nil {
@@ -413,7 +454,18 @@ func checkFile(e *fileEnv, in FileInput) *fail {
 					}
 				}
 			}
-			sfx := []string{"", ":path-from-PathsWithModules"}[route]
+			sfx := []string{"", ":path-from-PathsWithModules", ":path-entry-with-dots"}[route]
+			if route == 2 && in.SubName != "" && (subBest != "" || d1Best != "") {
+				// the first entry's directory and the one below it both count as "the first
+				// search-path directory"; which of the two is asked first is not stated. The file
+				// must be the best candidate of one of them.
+				if err != nil {
+					f = &fail{"read-missed-the-candidate" + sfx, d1Best + " or " + subBest, err.Error(), nil}
+				} else if got == "" || (got != d1Best && got != subBest) {
+					f = &fail{"read-chose-wrong-file" + sfx, d1Best + " or " + subBest, got, nil}
+				}
+				continue
+			}
 			switch {
 			case want == "" && err == nil:
 				f = &fail{"read-found-a-non-candidate" + sfx, "error: no candidate file", got, nil}
@@ -836,6 +888,40 @@ func run(c *core.Ctx) {
 									c.Sample(string(b))
 								}
 							}
+						}
+					}
+				}
+			}
+		}
+		// a subdirectory below the first path directory, named so that it sorts before or after the
+		// files: plain entries must not see it, dir/... entries search it as part of the first
+		subNames := []string{"a.yang", "a@2020-01-01.yang", "a@2021-06-30.yang", "ab.yang", "a@bad.yang"}
+		for m1 := 0; m1 < n; m1++ {
+			if m1%16 != shard {
+				continue
+			}
+			for ms := 0; ms < 1<<len(subNames); ms++ {
+				for m2 := 0; m2 < 4; m2++ {
+					if c.Expired() {
+						return
+					}
+					for ri, req := range []string{"a", "ab", "a@2020-01-01"} {
+						stem := fileStems[(m1+ms+ri)%len(fileStems)]
+						in := FileInput{Dirs: [][]string{nil, subsets(names, m1), subsets(names[:2], m2)}, Request: req, Stem: stem,
+							Sub: subsets(subNames, ms), SubName: []string{"0", "zz", "a@2022-01-01.yang"}[(m1/16+ms+m2)%3]}
+						caseNo, run := c.Begin()
+						if c.Skip(caseNo, run, Input{File: &in}) {
+							continue
+						}
+						c.Exec()
+						c.Validate()
+						c.Edge(1)
+						c.StateN(1)
+						c.NontrivialN(1)
+						if f := checkFile(e, in); f != nil {
+							report(caseNo, Input{File: &in}, f)
+						} else {
+							c.Outcome("chooser-as-required:subdirectory")
 						}
 					}
 				}
